@@ -2,7 +2,7 @@
 mod verif_kani_recovery {
     //! Recovery-side token and marker checks (U2, U6).
     use super::*;
-    use crate::storage::seq_token::verif_kani_seq::{crc32c_spec, fold_ref, stub_crc32c_impl};
+    use crate::storage::seq_token::verif_kani_seq::{fold_ref, ghost_chain_is, ghost_chain_result, ghost_chains, ghost_reset, stub_crc32c_impl_fnv, stub_crc32c_impl_ghost};
     use crate::storage::seq_token::record_seq_token;
 
     #[kani::proof]
@@ -12,50 +12,63 @@ mod verif_kani_recovery {
         assert!(record_token(crc) != 0);
     }
 
-    // writer (record_seq_token over the whole extent) and recovery (head CRC, then tail chunks) agree
+    // recovery (head CRC, then tail chunks) hashes the same byte string as the writer's formula
     #[kani::proof]
     #[kani::unwind(34)]
-    #[kani::stub(crate::storage::seq_token::crc32c_impl, stub_crc32c_impl)]
+    #[kani::stub(crate::storage::seq_token::crc32c_impl, stub_crc32c_impl_ghost)]
     fn recovery_token_matches_writer() {
         let sector: u64 = kani::any();
         let ext: [u8; 24] = kani::any();
+        ghost_reset();
         // recovery: head block bytes [..8], then tails [8..16] and [16..]
         let mut crc = record_crc_head(sector, &ext[..8]);
         crc = crc32c(crc, &ext[8..16]);
         crc = crc32c(crc, &ext[16..]);
-        assert!(record_token(crc) == record_seq_token(sector, &ext), "recovery recomputes the writer's token from head + tail chunks");
+        let mut cat = [0u8; 32];
+        cat[..8].copy_from_slice(&sector.to_le_bytes());
+        cat[8..].copy_from_slice(&ext);
+        cat[10] = 0;
+        cat[11] = 0;
+        assert!(ghost_chains() == 1 && ghost_chain_is(0, &cat), "recovery hashes le64(sector) ++ extent with the token field zeroed: the writer's formula (record_seq_token_spec)");
+        assert!(crc == ghost_chain_result(0));
     }
 
     #[kani::proof]
     #[kani::unwind(27)]
-    #[kani::stub(crate::storage::seq_token::crc32c_impl, stub_crc32c_impl)]
+    #[kani::stub(crate::storage::seq_token::crc32c_impl, stub_crc32c_impl_ghost)]
     fn complete_retirement_block_contract() {
         let b: [u8; 24] = kani::any();
         let n: usize = kani::any();
         kani::assume(n <= 24);
         let sector: u64 = kani::any();
         let remaining: u64 = kani::any();
+        ghost_reset();
         let got = is_complete_retirement_block(&b[..n], sector, remaining);
-        // independent statement of a COMPLETE marker for (sector, remaining)
-        let mut cat = [0u8; 25];
-        cat[..8].copy_from_slice(&sector.to_le_bytes());
-        cat[8..24].copy_from_slice(&b[..16]);
-        cat[24] = b[18];
-        let want = n >= 19
+        let plain = n >= 19
             && b[0] == 0 && b[1] == b'D' && b[2] == b'E' && b[3] == b'L' && b[4] == b'E' && b[5] == b'T' && b[6] == b'E' && b[7] == b'D'
             && u64::from_le_bytes([b[8], b[9], b[10], b[11], b[12], b[13], b[14], b[15]]) == remaining
-            && b[18] == 1
-            && u16::from_le_bytes([b[16], b[17]]) == fold_ref(crc32c_spec(0, &cat));
-        assert!(got == want, "accepted iff exactly the COMPLETE marker for (sector, remaining)");
+            && b[18] == 1;
+        if got {
+            let mut cat = [0u8; 25];
+            cat[..8].copy_from_slice(&sector.to_le_bytes());
+            cat[8..24].copy_from_slice(&b[..16]);
+            cat[24] = b[18];
+            assert!(plain, "accepted only with tag, remaining count and COMPLETE state");
+            assert!(ghost_chains() == 1 && ghost_chain_is(0, &cat), "token checked over le64(sector) ++ bytes 0..16 ++ state");
+            assert!(u16::from_le_bytes([b[16], b[17]]) == fold_ref(ghost_chain_result(0)), "stored token must equal the recomputed one");
+        } else {
+            assert!(!plain || (ghost_chains() == 1 && u16::from_le_bytes([b[16], b[17]]) != fold_ref(ghost_chain_result(0))),
+                "rejected only for a plain-field mismatch or a token mismatch");
+        }
         kani::cover!(got);
         kani::cover!(!got && n >= 19);
         kani::cover!(n < 19);
     }
 
-    // what the retirer writes is what recovery accepts
+    // what the retirer writes is what recovery accepts (instance proof: FNV-1a stand-in for the CRC)
     #[kani::proof]
     #[kani::unwind(27)]
-    #[kani::stub(crate::storage::seq_token::crc32c_impl, stub_crc32c_impl)]
+    #[kani::stub(crate::storage::seq_token::crc32c_impl, stub_crc32c_impl_fnv)]
     fn written_marker_is_accepted() {
         let sector: u64 = kani::any();
         let remaining: usize = kani::any();
